@@ -10,7 +10,7 @@ import json
 
 from harness import par, tlc
 
-ATOMS = {"MININT-1": -2147483649, "MININT": -2147483648, "0": 0, "MAXINT": 2147483647, "MAXINT+1": 2147483648, "3": 3}
+ATOMS = {"MININT-1": -2147483649, "MININT": -2147483648, "0": 0, "MAXINT": 2147483647, "MAXINT+1": 2147483648, "3": 3, "1": 1, "2": 2}
 ABSENT = "<absent>"
 
 
@@ -142,7 +142,13 @@ def build_schema(types):
         n = "f_" + tname(t)
         fields.append(Field(n, Int, [Argument("arg", real(t))], resolver=make(n)))
     fields.append(Field("g", Int, [Argument("arg", NonNullType(Int), default_value=3)], resolver=make("g")))
-    return Schema(ObjectType("Query", fields)), calls, real
+    fields.append(Field("g2", Int, [Argument("arg", Int, default_value=3)], resolver=make("g2")))
+    from py_gql.schema import InterfaceType
+    I = InterfaceType("I", [Field("x", Int, [Argument("arg", Int, default_value=0)])], resolve_type=lambda v, c, i: v["t"])
+    T1 = ObjectType("T1", [Field("x", Int, [Argument("arg", Int, default_value=1)], resolver=make("x"))], interfaces=[I])
+    T2 = ObjectType("T2", [Field("x", Int, [Argument("arg", Int, default_value=2)], resolver=make("x"))], interfaces=[I])
+    fields.append(Field("items", ListType(I), resolver=lambda r, c, i: [{"t": "T1"}, {"t": "T2"}, {"t": "T1"}]))
+    return Schema(ObjectType("Query", fields), types=[T1, T2]), calls, real
 
 
 def _worker(cases):
@@ -174,6 +180,13 @@ def _worker(cases):
             variables = {"w": to_json(v)}
         elif route == "objvar-absent":
             q = "query ($w: Int) { %s(arg: {y: 0, x: $w}) }" % f
+        elif route == "argdef-nullvar":
+            q = "query ($v: Int) { g2(arg: $v) }"
+            variables = {"v": None}
+        elif route == "argdef-novar":
+            q = "query ($v: Int) { g2(arg: $v) }"
+        elif route == "pertype":
+            q = "{ items { x } }"
         else:
             q = "query ($v: Int) { g(arg: $v) }"
             variables = {"v": None}
@@ -202,7 +215,7 @@ def _worker(cases):
             out.setdefault("coerce/%s/rejected-valid/%s/%s" % (route, tshape(t), vshape(v)),
                            ["valid input rejected before the resolver", dict(wit, errors=[str(e) for e in res.errors][:2])])
             continue
-        got = calls[0][1].get("arg", ABSENT)
+        got = calls[0][1].get("arg", ABSENT) if route != "pertype" else [c_[1].get("arg", ABSENT) for c_ in calls]
         if got != exp or (isinstance(got, bool) != isinstance(exp, bool)):
             out.setdefault("coerce/%s/wrong-value/%s/%s" % (route, tshape(t), vshape(v)), ["resolver received a non-conforming value", dict(wit, got=repr(got), want=repr(exp))])
         # direct call of coerce_value for JSON inputs
